@@ -3,6 +3,7 @@ package main
 
 import (
 	"fmt"
+	"gopkg.in/typ.v4/avl"
 	"math"
 	"time"
 
@@ -92,6 +93,20 @@ func main() {
 				r.Report(ev.Violation{Sig: "family|churn", Msg: "(" + kind + " tree) " + msg, Replay: rp})
 			}
 		}
+	}
+	// deep trees: the sparsest AVL tree with 34 (36) levels - descents of more than 32 steps
+	{
+		var tr func(any)
+		if ev.Tracing() {
+			tr = ev.Trace
+		}
+		avlh.NewTree = func() avl.Tree[int] { return avl.NewOrdered[int]() }
+		nodes, calls, msg := avlh.DeepTree(ev.Pick(r, 34, 36), tr)
+		if msg != "" {
+			r.Report(ev.Violation{Sig: "family|deep-tree", Msg: msg, Replay: map[string]any{"family": "deep-tree"}})
+		}
+		r.Set("deep_tree_nodes", nodes)
+		r.Set("deep_tree_calls", calls)
 	}
 	r.Set("churn_family_operations", 2*ev.Pick(r, 60000, 600000))
 	r.Set("states", states)
